@@ -22,6 +22,9 @@ func (ft *FT) pkgAlias(id *ast.Ident) (string, bool) {
 func (ft *FT) globalVal(pkg, name string) Val {
 	g := Root{Kind: KGlobal, Name: pkg + "." + name}
 	t := globalType(pkg, name)
+	if lt, ok := libGlobals[pkg+"."+name]; ok {
+		t = lt
+	}
 	ft.read(rs(g))
 	return Val{T: t, Pts: rs(g)}
 }
@@ -112,7 +115,7 @@ func (ft *FT) eval(e ast.Expr) Val {
 		return scalar(v.T)
 	case *ast.StarExpr:
 		v := ft.eval(e.X)
-		ft.read(v.Pts)
+		ft.readVal(v)
 		t := v.T.deref()
 		if v.T.E == nil {
 			t = unknownT
@@ -131,7 +134,7 @@ func (ft *FT) eval(e ast.Expr) Val {
 			}
 		}
 		bt, s := ft.base(e.X)
-		ft.read(s)
+		ft.readRef(s)
 		t := bt.field(e.Sel.Name)
 		if t.hasRef() {
 			return Val{T: t, Pts: ft.load(s, e.Sel.Name)}
@@ -140,7 +143,7 @@ func (ft *FT) eval(e ast.Expr) Val {
 	case *ast.IndexExpr:
 		ft.eval(e.Index)
 		bt, s := ft.base(e.X)
-		ft.read(s)
+		ft.readRef(s)
 		t := bt.elem()
 		if u := bt.under(); u.E != nil {
 			if m, ok := u.E.(*ast.MapType); ok {
@@ -236,8 +239,8 @@ func (ft *FT) evalIdent(e *ast.Ident) Val {
 			if _, ok := ft.pk.Vars[e.Name]; ok {
 				return ft.globalVal(ft.pk.Dir, e.Name)
 			}
-			// a local not yet seen in this pass (first fixpoint round)
-			return scalar(unknownT)
+			// a local not yet seen in this pass: fail closed on use
+			return Val{T: unknownT, Pts: RootSet{}}
 		}
 	}
 	if ft.pk.Consts[e.Name] {
